@@ -5,4 +5,5 @@ from ..rules import driver, args
 def run(ctx, rep):
     mod = ctx.mod
     driver.rule_expert_table(mod, rep, "C07")
+    driver.rule_expert_conj_rowwise(mod, rep)
     args.rule_forwarded_trans(mod, rep)
